@@ -384,7 +384,7 @@ where
             }
             if is_terminal {
                 for (i, property) in properties.iter().enumerate() {
-                    if ebits.contains(i) {
+                    if ebits.contains(i) && !discoveries.contains_key(property.name) {
                         // Races other threads, but that's fine.
                         discoveries.insert(property.name, state_fp);
                     }
